@@ -18,8 +18,13 @@ pub fn generate(s: &mut Session, tier: &str, rng: &mut Rng) {
     // one configuration per codec family in the quick tier
     let picks: Vec<Cfg> = if thorough { all } else { all.into_iter().filter(|c| matches!((c.protocol, c.cipher, c.users.as_str()), ("shadowsocks", "aes-256-gcm", _) | ("shadowsocks", "2022-blake3-aes-128-gcm", "-") | ("vmess", "aes-128-gcm", _) | ("trojan", _, _))).collect() };
     let max_total = if thorough { 1 << 20 } else { 100_000 };
-    for base in picks {
+    for (ci, base) in picks.into_iter().enumerate() {
         for t in &transports {
+            // quick tier: plain tcp plus one other transport per configuration, rotating so that each is used
+            let others = ["ws", "tls", "wss", "quic"];
+            if !thorough && *t != "tcp" && *t != others[ci % others.len()] {
+                continue;
+            }
             let cfg = base.with(t);
             s.begin_case(&format!("endings:{}", cfg.label()));
             // the link forwarder only understands tcp
@@ -37,6 +42,7 @@ pub fn generate(s: &mut Session, tier: &str, rng: &mut Rng) {
                 let mut endings: Vec<String> = vec![
                     "close=target".into(),
                     "close=app".into(),
+                    "close=app-early".into(),
                     "close=app reset=app".into(),
                     "close=app reset=target".into(),
                     "close=app target=refused".into(),
